@@ -460,7 +460,20 @@ package regexp2
 //@     ((code.Anchors & syntax.AnchorEndZ) != 0 ==> p == len(text) || (p == len(text) - 1 && text[p] == '\n')) &&
 //@     (code.BmPrefix != nil ==> syntax.BmAt(code.BmPrefix, text, p)) &&
 //@     (code.FcPrefix != nil ==> ite(code.RightToLeft, p > 0 && syntax.Member(code.FcPrefix.PrefixSet, text[p-1]), p < len(text) && syntax.Member(code.FcPrefix.PrefixSet, text[p]))) &&
-//@     (code.FindOptimizations != nil && code.FindOptimizations.MinRequiredLength > 0 ==> ite(code.RightToLeft, p >= code.FindOptimizations.MinRequiredLength, len(text) - p >= code.FindOptimizations.MinRequiredLength))
+//@     (code.FindOptimizations != nil && code.FindOptimizations.MinRequiredLength > 0 ==> ite(code.RightToLeft, p >= code.FindOptimizations.MinRequiredLength, len(text) - p >= code.FindOptimizations.MinRequiredLength)) &&
+//@     (code.FindOptimizations != nil ==> ModeFacts(code.FindOptimizations, text, p))
+// the runes of string s occur in text at i (ordinal / ASCII fold / Unicode simple lower-casing), stated over the decoded string
+//@ spec func StrOccurs(text []rune, i int, s string) bool = 0 <= i && i + RuneCount(s) <= len(text) && forall j int {RuneStart(s, j)} :: 0 <= j && j < RuneCount(s) ==> text[i+j] == RuneAtIdx(s, j)
+// what the FindMode-specific fact says about a position p with a successful attempt (for the modes whose finder contract is
+// connected to it deductively; the remaining modes are connected by the callensure assumptions of findFirstCharOptimized)
+//@ spec func ModeFacts(fo *syntax.FindOptimizations, text []rune, p int) bool =
+//@     (fo.FindMode == syntax.TrailingAnchor_FixedLength_LeftToRight_End ==> p == len(text) - fo.MinRequiredLength) &&
+//@     ((fo.FindMode == syntax.LeadingSet_LeftToRight || fo.FindMode == syntax.FixedDistanceSets_LeftToRight) ==> FDSetsAt(text, fo.FixedDistanceSets, p)) &&
+//@     (fo.FindMode == syntax.LeadingStrings_LeftToRight ==> AnyPrefAt(text, p, fo.LeadingPrefixesRunes, false)) &&
+//@     (fo.FindMode == syntax.LeadingStrings_OrdinalIgnoreCase_LeftToRight ==> AnyPrefAt(text, p, fo.LeadingPrefixesRunes, true)) &&
+//@     (fo.FindMode == syntax.LeadingString_LeftToRight ==> StrOccurs(text, p, fo.LeadingPrefix)) &&
+//@     (fo.FindMode == syntax.FixedDistanceString_LeftToRight ==> StrOccurs(text, p + fo.FixedDistanceLiteral.Distance, fo.FixedDistanceLiteral.S)) &&
+//@     (fo.FindMode == syntax.FixedDistanceChar_LeftToRight ==> 0 <= p && p + fo.FixedDistanceLiteral.Distance < len(text) && text[p + fo.FixedDistanceLiteral.Distance] == fo.FixedDistanceLiteral.C)
 //@ spec func CodeFacts(code *syntax.Code) bool = (code.BmPrefix != nil ==> len(code.BmPrefix.pattern) > 0 && code.BmPrefix.rightToLeft == code.RightToLeft) &&
 //@     (code.FcPrefix != nil ==> syntax.SetOKv(code.FcPrefix.PrefixSet)) && (code.FindOptimizations != nil ==> OptFacts(code.FindOptimizations) && (code.RightToLeft ==> !HandledMode(code.FindOptimizations.FindMode)))
 // the modes findFirstCharOptimized handles are left-to-right modes: the analyzers never publish them for a right-to-left program
@@ -471,6 +484,8 @@ package regexp2
 // well-formedness of the data the FindMode-specific finders are handed (what the analyzers publish; assumed with the other facts)
 //@ spec func OptFacts(fo *syntax.FindOptimizations) bool = fo.FixedDistanceLiteral.Distance >= 0 && fo.MinRequiredLength >= 0 &&
 //@     (forall k int :: 0 <= k && k < len(fo.FixedDistanceSets) ==> FDSetOK(fo.FixedDistanceSets[k])) && (len(fo.FixedDistanceSets) > 0 ==> 0 <= fo.FixedDistanceSets[0].Distance) &&
+//@     ((fo.FindMode == syntax.LeadingSet_LeftToRight || fo.FindMode == syntax.FixedDistanceSets_LeftToRight) ==> len(fo.FixedDistanceSets) > 0 && fo.FixedDistanceSets[0].Set != nil) &&
+//@     ((fo.FindMode == syntax.LeadingStrings_LeftToRight || fo.FindMode == syntax.LeadingStrings_OrdinalIgnoreCase_LeftToRight) ==> len(fo.LeadingPrefixesRunes) > 0) &&
 //@     (forall k int :: 0 <= k && k < len(fo.LeadingPrefixesRunes) ==> len(fo.LeadingPrefixesRunes[k]) > 0) &&
 //@     (len(fo.LeadingPrefixFirstRunes) > 0 ==> forall k int :: 0 <= k && k < len(fo.LeadingPrefixesRunes) ==> helpers.InRunes(fo.LeadingPrefixFirstRunes, fo.LeadingPrefixesRunes[k][0])) &&
 //@     (fo.LiteralAfterLoop != nil && fo.LiteralAfterLoop.LoopNode != nil && fo.LiteralAfterLoop.LoopNode.Set != nil ==> syntax.SetOK(fo.LiteralAfterLoop.LoopNode.Set)) &&
@@ -507,18 +522,15 @@ package regexp2
 //@   props C03 C10
 //@   requires r != nil && r.code != nil && 0 <= r.Runtextpos && r.Runtextpos <= len(r.Runtext) && r.Runtextend == len(r.Runtext)
 //@   requires FinderFacts(r.code, r.Runtext, r.Runtextstart)
-//@   callensure findTrailingFixedLengthEnd: NoSkip(r, old(r.Runtextpos), b)
-//@   callensure findLeadingStringLeftToRight: NoSkip(r, old(r.Runtextpos), b)
-//@   callensure findLeadingStringsLeftToRight: NoSkip(r, old(r.Runtextpos), b)
-//@   callensure findFixedDistanceSetsLeftToRight: NoSkip(r, old(r.Runtextpos), b)
-//@   callensure findFixedDistanceCharLeftToRight: NoSkip(r, old(r.Runtextpos), b)
-//@   callensure findFixedDistanceStringLeftToRight: NoSkip(r, old(r.Runtextpos), b)
+//@   callensure findLeadingStringLeftToRight: ignoreCase ==> NoSkip(r, old(r.Runtextpos), b)
 //@   callensure findLiteralAfterLoopLeftToRight: NoSkip(r, old(r.Runtextpos), b)
 //@   callensure findRequiredLandmarkChainLeftToRight: NoSkip(r, old(r.Runtextpos), b)
 //@   modifies r.Runtextpos
 //@   ensures !handled ==> r.Runtextpos == old(r.Runtextpos)
-//@   ensures handled && !r.code.RightToLeft ==> old(r.Runtextpos) <= r.Runtextpos && r.Runtextpos <= len(r.Runtext) &&
-//@              forall p int :: old(r.Runtextpos) <= p && (p < r.Runtextpos || (!found && p == r.Runtextpos)) ==> !Att(r.code, r.Runtext, r.Runtextstart, p)
+//@   ensures handled && !r.code.RightToLeft ==> old(r.Runtextpos) <= r.Runtextpos && r.Runtextpos <= len(r.Runtext)
+// (the marks are instantiation points for the finders' first-occurrence clauses, which are stated over shifted positions)
+//@   ensures[noskip] handled && !r.code.RightToLeft ==> forall p int {mark(p), mark(p - old(r.Runtextpos)), mark(p + r.code.FindOptimizations.FixedDistanceLiteral.Distance)} {Att(r.code, r.Runtext, r.Runtextstart, p)} ::
+//@              old(r.Runtextpos) <= p && (p < r.Runtextpos || (!found && p == r.Runtextpos)) ==> !Att(r.code, r.Runtext, r.Runtextstart, p)
 //@   ensures handled ==> !r.code.RightToLeft
 
 // C15: direction helpers. In right-to-left mode each is the mirror image of its left-to-right branch.
@@ -1045,7 +1057,7 @@ package regexp2
 
 // how the leading-string finder compares: ordinal, ASCII fold, or Unicode simple lower-casing
 //@ spec func PrefAt(text []rune, p int, prefix []rune, ic bool, ascii bool) bool = ite(!ic, helpers.OccursAt(text, p, prefix), ite(ascii, helpers.AFOccursAt(text, p, prefix), helpers.CIOccursAt(text, p, prefix)))
-//@ spec func AllASCII(in []rune) bool = forall k int :: 0 <= k && k < len(in) ==> in[k] <= 127
+//@ spec func AllASCII(in []rune) bool = forall k int {in[k]} :: 0 <= k && k < len(in) ==> in[k] <= 127
 
 //@ func findLeadingStringLeftToRight(r *Runner, prefix []rune, ignoreCase bool) (b bool)
 //@   props C03 C10 C20
@@ -1152,11 +1164,11 @@ package regexp2
 
 //@ spec func SameFDSet(a syntax.FixedDistanceSet, b syntax.FixedDistanceSet) bool = a.Set == b.Set && a.Chars == b.Chars && a.Negated == b.Negated && a.Range == b.Range && a.Distance == b.Distance
 // every set of the list has a member at its distance from start
-//@ spec func FDSetsAt(r *Runner, sets []syntax.FixedDistanceSet, start int) bool = forall k int :: 0 <= k && k < len(sets) ==> 0 <= start + sets[k].Distance && start + sets[k].Distance < r.Runtextend && FDSetHas(sets[k], r.Runtext[start + sets[k].Distance])
+//@ spec func FDSetsAt(text []rune, sets []syntax.FixedDistanceSet, start int) bool = forall k int :: 0 <= k && k < len(sets) ==> 0 <= start + sets[k].Distance && start + sets[k].Distance < len(text) && FDSetHas(sets[k], text[start + sets[k].Distance])
 //@ func fixedDistanceSetsMatchAt(r *Runner, sets []syntax.FixedDistanceSet, start int) (b bool)
 //@   props C03 C10
 //@   requires RunnerText(r) && forall k int :: 0 <= k && k < len(sets) ==> FDSetOK(sets[k])
-//@   ensures b == FDSetsAt(r, sets, start)
+//@   ensures b == FDSetsAt(r.Runtext, sets, start)
 //@   loop 0:
 //@     invariant -1 <= rangeindex && rangeindex < len(sets)
 //@     invariant[bounds] forall k int :: 0 <= k && k <= rangeindex ==> 0 <= start + sets[k].Distance && start + sets[k].Distance < r.Runtextend
@@ -1168,12 +1180,12 @@ package regexp2
 //@   requires RunnerText(r) && (forall k int :: 0 <= k && k < len(sets) ==> FDSetOK(sets[k])) && (len(sets) > 0 ==> 0 <= sets[0].Distance)
 //@   modifies r.Runtextpos
 //@   ensures[none]  (len(sets) == 0 || sets[0].Set == nil) ==> !b && r.Runtextpos == old(r.Runtextpos)
-//@   ensures[hit]   b ==> old(r.Runtextpos) <= r.Runtextpos && r.Runtextpos <= Latest(r) && FDSetsAt(r, sets, r.Runtextpos)
-//@   ensures[first] b ==> forall p int :: old(r.Runtextpos) <= p && p < r.Runtextpos && p <= Latest(r) ==> !FDSetsAt(r, sets, p)
-//@   ensures[miss]  !b && len(sets) > 0 && sets[0].Set != nil ==> r.Runtextpos == r.Runtextend && forall p int :: old(r.Runtextpos) <= p && p <= Latest(r) ==> !FDSetsAt(r, sets, p)
+//@   ensures[hit]   b ==> old(r.Runtextpos) <= r.Runtextpos && r.Runtextpos <= Latest(r) && FDSetsAt(r.Runtext, sets, r.Runtextpos)
+//@   ensures[first] b ==> forall p int {mark(p)} :: old(r.Runtextpos) <= p && p < r.Runtextpos && p <= Latest(r) ==> !FDSetsAt(r.Runtext, sets, p)
+//@   ensures[miss]  !b && len(sets) > 0 && sets[0].Set != nil ==> r.Runtextpos == r.Runtextend && forall p int {mark(p)} :: old(r.Runtextpos) <= p && p <= Latest(r) ==> !FDSetsAt(r.Runtext, sets, p)
 //@   loop 0:
 //@     invariant RunnerText(r) && r.Runtextpos == old(r.Runtextpos) && len(sets) > 0 && SameFDSet(primary, sets[0]) && r.Runtextpos + primary.Distance <= searchStart
-//@     invariant forall c int {r.Runtext[c]} :: old(r.Runtextpos) + primary.Distance <= c && c < searchStart && c - primary.Distance <= Latest(r) ==> !FDSetsAt(r, sets, c - primary.Distance)
+//@     invariant forall c int {r.Runtext[c]} :: old(r.Runtextpos) + primary.Distance <= c && c < searchStart && c - primary.Distance <= Latest(r) ==> !FDSetsAt(r.Runtext, sets, c - primary.Distance)
 //@     decreases len(r.Runtext) - searchStart
 
 // ---- literal after a leading set loop ----
